@@ -612,7 +612,16 @@ func (vm *VM) run() (Addr, bool) {
 		// Field
 		case OpField:
 			v := vm.general(a)
-			vm.setFromReflectValue(c, vm.fieldByIndex(v, uint8(b)))
+			f := vm.fieldByIndex(v, uint8(b))
+			switch f.Kind() {
+			case reflect.Pointer, reflect.Slice, reflect.Map, reflect.Chan:
+				// f refers to the field: store a copy of its value, that
+				// does not change if the field is then assigned.
+				if f.CanAddr() && f.CanInterface() {
+					f = reflect.ValueOf(f.Interface())
+				}
+			}
+			vm.setFromReflectValue(c, f)
 
 		// GetVar
 		case OpGetVar:
